@@ -188,3 +188,153 @@ package decorator
 
 //@ func splitParentQueueKey(key) (apiVersion, kind, namespace, name, err)
 //@   safety C13
+
+// ---- C20: hosted controllers follow their DecoratorController objects ----
+
+//@ pred runningDC(c) = c != nil && c.dc != nil && c.stopCh != nil && c.doneCh != nil && c.queue != nil && c.eventRecorder != nil
+
+//@ pred hostedDCOK(mc) = mc != nil && mc.decoratorControllers != nil && mc.eventRecorder != nil && mc.k8sClient != nil && mc.resources != nil && mc.dynClient != nil && mc.dynClient.resources != nil && mc.dynClient.dc != nil && factoryInv(mc.dynInformers) && (forall k string :: has(mc.decoratorControllers, k) ==> runningDC(mc.decoratorControllers[k]))
+
+//@ pred dcChildInformersStoppable(c) = forall k schema.GroupVersionResource :: has(c.childInformers, k) ==> validInformer(c.childInformers[k])
+//@ pred dcParentInformersStoppable(c) = forall k schema.GroupVersionResource :: has(c.parentInformers, k) ==> validInformer(c.parentInformers[k])
+
+// Stop: signal the workers, shut the queue down, wait for them, then release every informer subscription exactly once.
+//@ func decoratorController.Stop(c) ()
+//@   requires validRM0(c.customize)
+//@   requires factoryInv(c.customize.dynInformers)
+//@   requires validRMInf(c.customize)
+//@   requires dcChildInformersStoppable(c)
+//@   requires dcParentInformersStoppable(c)
+//@   requires runningDC(c) && validDC(c) && !closed(c.stopCh)
+//@   safety C13,C20 closechan
+//@   bind loop 1: ck, inf
+//@   bind loop 2: pk, pinf
+//@   at ShutDown(q) [C20]: q == c.queue && closed(c.stopCh)
+//@   at informerWrapper.RemoveEventHandlers#1(iw) [C20,C18]: called(ShutDown) && has(c.childInformers, ck) && iw == c.childInformers[ck].informerWrapper
+//@   at informerWrapper.RemoveEventHandlers#2(iw) [C20,C18]: called(ShutDown) && has(c.parentInformers, pk) && iw == c.parentInformers[pk].informerWrapper
+//@   at ResourceInformer.Close#1(ri) [C20,C18]: called(ShutDown) && has(c.childInformers, ck) && ri == c.childInformers[ck] && count(ResourceInformer.Close) == count(informerWrapper.RemoveEventHandlers)
+//@   at ResourceInformer.Close#2(ri) [C20,C18]: called(ShutDown) && has(c.parentInformers, pk) && ri == c.parentInformers[pk] && count(ResourceInformer.Close) == count(informerWrapper.RemoveEventHandlers)
+//@   at Manager.Stop(rm) [C20]: rm == c.customize && count(ResourceInformer.Close) == len(c.childInformers) + len(c.parentInformers)
+//@   invariant loop 1 [C20,C18]: count(ResourceInformer.Close) == iters(1) && count(informerWrapper.RemoveEventHandlers) == iters(1) && called(ShutDown) && closed(c.stopCh)
+//@   invariant loop 1 [C20,C18]: forall k schema.GroupVersionResource :: has(c.childInformers, k) && !visited(1, k) ==> validInformer(c.childInformers[k])
+//@   invariant loop 1 [C20,C18]: dcParentInformersStoppable(c)
+//@   invariant loop 1 [C20,C18]: validRM0(c.customize)
+//@   invariant loop 1 [C20,C18]: factoryInv(c.customize.dynInformers)
+//@   invariant loop 1 [C20,C18]: validRMInf(c.customize)
+//@   invariant loop 2 [C20,C18]: count(ResourceInformer.Close) == len(c.childInformers) + iters(2) && count(informerWrapper.RemoveEventHandlers) == len(c.childInformers) + iters(2) && called(ShutDown) && closed(c.stopCh)
+//@   invariant loop 2 [C20,C18]: forall k schema.GroupVersionResource :: has(c.parentInformers, k) && !visited(2, k) ==> validInformer(c.parentInformers[k])
+//@   invariant loop 2 [C20,C18]: validRM0(c.customize)
+//@   invariant loop 2 [C20,C18]: factoryInv(c.customize.dynInformers)
+//@   invariant loop 2 [C20,C18]: validRMInf(c.customize)
+//@   noexit loop 1 [C20,C18]
+//@   noexit loop 2 [C20,C18]
+//@   ensures [C20] closed(c.stopCh) && count(ShutDown) == 1 && count(Manager.Stop) == 1
+//@   ensures [C20,C18] count(ResourceInformer.Close) == len(c.childInformers) + len(c.parentInformers) && count(informerWrapper.RemoveEventHandlers) == len(c.childInformers) + len(c.parentInformers)
+
+// Start (its sequential part; the worker goroutine it spawns is outside the sequential model): fresh open channels, one
+// handler registration on every parent informer and on every child informer.
+//@ func decoratorController.Start(c) ()
+//@   requires validDC(c) && dcChildInformersStoppable(c) && dcParentInformersStoppable(c)
+//@   safety C13,C20
+//@   noexit loop 1 [C20,C14]
+//@   noexit loop 2 [C20,C14]
+//@   invariant loop 1 [C20,C14]: count(informerWrapper.AddEventHandler) + count(informerWrapper.AddEventHandlerWithResyncPeriod) == iters(1)
+//@   invariant loop 2 [C20,C14]: count(informerWrapper.AddEventHandler) + count(informerWrapper.AddEventHandlerWithResyncPeriod) == len(c.parentInformers) + iters(2)
+//@   at Manager.Start(rm, ch) [C20]: rm == c.customize && ch == c.stopCh && ch != nil
+//@   ensures [C20] c.stopCh != nil && c.doneCh != nil && !closed(c.stopCh)
+//@   // the customize manager waits for related informers on this channel: without it Stop() can block for ever (fix 13befd9)
+//@   ensures [C20] count(Manager.Start) == 1 && c.customize.stopCh == c.stopCh
+//@   ensures [C20,C14] count(informerWrapper.AddEventHandler) + count(informerWrapper.AddEventHandlerWithResyncPeriod) == len(c.parentInformers) + len(c.childInformers)
+
+//@ func newDecoratorSelector(resources, dc) (ds, err)
+//@   requires resources != nil && dc != nil
+//@   safety C13,C20
+//@   ensures [C20] err == nil ==> ds != nil && ds.labelSelectors != nil && ds.annotationSelectors != nil
+//@   ensures [C20] err != nil ==> ds == nil
+
+//@ func newDecoratorController(resources, dynClient, dynInformers, eventRecorder, dc, numWorkers, logger) (ctl, newErr)
+//@   requires dc != nil && eventRecorder != nil && resources != nil && dynClient != nil && dynClient.resources != nil && dynClient.dc != nil && factoryInv(dynInformers)
+//@   safety C13,C20
+//@   // every subscription opened is tracked: none is overwritten in its map (a lost entry is never closed, neither on failure nor by Stop)
+//@   at InformerMap.Set(m, k, v) [C20]: !has(m, k) && v != nil
+//@   invariant loop 2 [C20]: cur(c) != nil && cur(c).parentInformers != nil && cur(c).childInformers != nil && (forall k schema.GroupVersionResource :: !has(cur(c).childInformers, k)) && (forall k schema.GroupVersionResource :: has(cur(c).parentInformers, k) ==> validInformer(cur(c).parentInformers[k]))
+//@   invariant loop 2 [C20]: factoryInv(dynInformers)
+//@   invariant loop 3 [C20]: cur(c) != nil && cur(c).parentInformers != nil && cur(c).childInformers != nil && (forall k schema.GroupVersionResource :: has(cur(c).parentInformers, k) ==> validInformer(cur(c).parentInformers[k]))
+//@   invariant loop 3 [C20]: forall k schema.GroupVersionResource :: has(cur(c).childInformers, k) ==> validInformer(cur(c).childInformers[k])
+//@   invariant loop 3 [C20]: factoryInv(dynInformers)
+//@   ensures [C20] newErr != nil ==> ctl == nil
+//@   ensures [C20] newErr == nil ==> ctl != nil && ctl.dc == dc && ctl.queue != nil && ctl.eventRecorder == eventRecorder && fresh(ctl)
+//@   ensures [C20] newErr == nil ==> dcChildInformersStoppable(ctl) && dcParentInformersStoppable(ctl) && factoryInv(dynInformers)
+//@   ensures [C20] newErr == nil ==> ctl.customize != nil && ctl.finalizer != nil && ctl.syncHook != nil && ctl.finalizeHook != nil && ctl.parentSelector != nil
+//@   ensures [C20,C13] newErr == nil ==> validDC(ctl)
+
+// the deferred cleanup: when the constructor fails, every informer it opened so far (all of them tracked in the two maps) is closed
+//@ func newDecoratorController$1() ()
+//@   requires *c != nil && (*c).childInformers != nil && (*c).parentInformers != nil
+//@   requires forall k schema.GroupVersionResource :: has((*c).childInformers, k) ==> validInformer((*c).childInformers[k])
+//@   requires forall k schema.GroupVersionResource :: has((*c).parentInformers, k) ==> validInformer((*c).parentInformers[k])
+//@   safety C13,C20
+//@   noexit loop 1 [C20]
+//@   noexit loop 2 [C20]
+//@   invariant loop 1 [C20]: count(ResourceInformer.Close) == iters(1)
+//@   invariant loop 2 [C20]: count(ResourceInformer.Close) == len((*c).childInformers) + iters(2)
+//@   ensures [C20] *newErr != nil ==> count(ResourceInformer.Close) == len((*c).childInformers) + len((*c).parentInformers)
+//@   ensures [C20] *newErr == nil ==> !called(ResourceInformer.Close)
+
+// Representation invariant of every hosted (started) controller, as needed by Stop. It is established by the constructor and Start and
+// is ASSUMED at the entry of the reconcilers for the one instance they may stop (not re-proved on exit: Start is outside the sequential model).
+//@ pred hostedDCStop1(mc, name) = has(mc.decoratorControllers, name) ==> validRM0(mc.decoratorControllers[name].customize)
+//@ pred hostedDCStop2(mc, name) = has(mc.decoratorControllers, name) ==> factoryInv(mc.decoratorControllers[name].customize.dynInformers)
+//@ pred hostedDCStop3(mc, name) = has(mc.decoratorControllers, name) ==> validRMInf(mc.decoratorControllers[name].customize)
+//@ pred hostedDCStop5(mc, name) = has(mc.decoratorControllers, name) ==> dcChildInformersStoppable(mc.decoratorControllers[name])
+//@ pred hostedDCStop6(mc, name) = has(mc.decoratorControllers, name) ==> dcParentInformersStoppable(mc.decoratorControllers[name])
+//@ pred hostedDCStop7(mc, name) = has(mc.decoratorControllers, name) ==> validDC(mc.decoratorControllers[name]) && !closed(mc.decoratorControllers[name].stopCh)
+
+//@ func Metacontroller.reconcileDecoratorController(mc, dc) (err)
+//@   requires hostedDCStop1(mc, dc.Name)
+//@   requires hostedDCStop2(mc, dc.Name)
+//@   requires hostedDCStop3(mc, dc.Name)
+//@   requires hostedDCStop5(mc, dc.Name)
+//@   requires hostedDCStop6(mc, dc.Name)
+//@   requires hostedDCStop7(mc, dc.Name)
+//@   requires hostedDCOK(mc) && dc != nil
+//@   safety C13,C20
+//@   let name = dc.Name
+//@   let was = old(has(mc.decoratorControllers, name))
+//@   let oldc = old(mc.decoratorControllers[name])
+//@   bind call newDecoratorController: nc, nerr
+//@   bind call DeepEqual: same
+//@   at decoratorController.Stop(p) [C20]: was && p == oldc && !same && !called(newDecoratorController)
+//@   at newDecoratorController(r, dcl, di, er, d, nw, lg) [C20]: d == dc && (was ==> called(decoratorController.Stop)) && count(newDecoratorController) == 1
+//@   at decoratorController.Start(p) [C20]: called(newDecoratorController) && nerr == nil && p == nc && count(decoratorController.Start) == 1
+//@   ensures [C20] was && same ==> err == nil && !called(decoratorController.Stop) && !called(newDecoratorController) && !called(decoratorController.Start) && mc.decoratorControllers[name] == oldc && has(mc.decoratorControllers, name)
+//@   ensures [C20] was && !same ==> count(decoratorController.Stop) == 1
+//@   ensures [C20] !(was && same) ==> count(newDecoratorController) == 1
+//@   ensures [C20] called(newDecoratorController) && nerr != nil ==> err != nil && !has(mc.decoratorControllers, name) && !called(decoratorController.Start)
+//@   ensures [C20] called(newDecoratorController) && nerr == nil ==> err == nil && has(mc.decoratorControllers, name) && mc.decoratorControllers[name] == nc && count(decoratorController.Start) == 1
+//@   ensures [C20] forall k string :: k != name ==> has(mc.decoratorControllers, k) == old(has(mc.decoratorControllers, k)) && mc.decoratorControllers[k] == old(mc.decoratorControllers[k])
+
+// Reconcile: object gone => stop and forget the instance; read error => nothing is started or stopped; otherwise the state
+// machine of reconcileDecoratorController for the object that was read.
+//@ func Metacontroller.Reconcile(mc, ctx, request) (res, err)
+//@   requires hostedDCStop1(mc, request.Name)
+//@   requires hostedDCStop2(mc, request.Name)
+//@   requires hostedDCStop3(mc, request.Name)
+//@   requires hostedDCStop5(mc, request.Name)
+//@   requires hostedDCStop6(mc, request.Name)
+//@   requires hostedDCStop7(mc, request.Name)
+//@   requires hostedDCOK(mc)
+//@   safety C13,C20
+//@   let name = request.Name
+//@   let was = old(has(mc.decoratorControllers, name))
+//@   let oldc = old(mc.decoratorControllers[name])
+//@   bind call Get: getErr
+//@   bind call Metacontroller.reconcileDecoratorController: recErr
+//@   at decoratorController.Stop(p) [C20]: IsNotFound(getErr) && was && p == oldc
+//@   at Metacontroller.reconcileDecoratorController(m, c) [C20]: m == mc && c != nil && c.Name == name && getErr == nil && !called(decoratorController.Stop)
+//@   ensures [C20] IsNotFound(getErr) ==> err == nil && !has(mc.decoratorControllers, name) && !called(Metacontroller.reconcileDecoratorController) && (was ==> count(decoratorController.Stop) == 1)
+//@   ensures [C20] !was ==> !called(decoratorController.Stop)
+//@   ensures [C20,C12] getErr != nil && !IsNotFound(getErr) ==> err != nil && !called(Metacontroller.reconcileDecoratorController) && !called(decoratorController.Stop)
+//@   ensures [C20,C12] called(Metacontroller.reconcileDecoratorController) ==> err == recErr
+//@   ensures [C20] !called(Metacontroller.reconcileDecoratorController) ==> (forall k string :: k != name ==> has(mc.decoratorControllers, k) == old(has(mc.decoratorControllers, k)) && mc.decoratorControllers[k] == old(mc.decoratorControllers[k]))
+//@   ensures [C20] !called(Metacontroller.reconcileDecoratorController) && !called(decoratorController.Stop) ==> has(mc.decoratorControllers, name) == was && mc.decoratorControllers[name] == oldc
